@@ -127,6 +127,11 @@ def make_traces(mod, metas, traced_mask: int, rk: str):
         ret = {"ret": T_RET, "yield": None, "yield+ret": T_RET, "yield+none": O.NoneType, "exc": None, "yield+ret-or-none": T_RET}[rk]
         yld = None if rk in ("ret", "exc") else T_YIELD
         out.append(CallTrace(live(mod, m), arg_types, ret, yld))
+        # calls that bound only ONE of the traced parameters (the others were left to their defaults or did not exist yet):
+        # a position counts as traced when any call recorded it
+        for nm in list(arg_types):
+            if nm != m["recv"] and len(arg_types) > 1:
+                out.append(CallTrace(live(mod, m), {nm: arg_types[nm]}, ret, yld))
         if rk == "yield+ret-or-none":
             # a second run of the same generator fell off the end
             out.append(CallTrace(live(mod, m), dict(arg_types), O.NoneType, T_YIELD))
